@@ -301,7 +301,7 @@ func (r *rng) genUbjDoc0() []byte {
 				// huge or negative lengths
 				ins := [][]byte{{'S', 'L', 0x7f, 0xff, 0xff, 0xff, 0xff, 0xff, 0xff, 0xff}, {'[', '#', 'L', 0x7f, 0xff, 0xff, 0xff, 0xff, 0xff, 0xff, 0xff},
 					{'S', 'i', 0x80}, {'[', '#', 'l', 0x80, 0, 0, 0}, {'[', '$', 'i', '#', 'L', 0x40, 0, 0, 0, 0, 0, 0, 0}, {'{', '#', 'L', 0x7f, 0xff, 0xff, 0xff, 0xff, 0xff, 0xff, 0xff},
-					{'[', '#', 'S'}, {'[', '$', 'N', '#', 'i', 1}, {'H', 'U', 200}, {'[', '$', 'T', '#', 'L', 0x7f, 0xff, 0xff, 0xff, 0xff, 0xff, 0xff, 0xff}}[r.n(10)]
+					{'[', '#', 'S'}, {'[', '$', 'N', '#', 'i', 1}, {'H', 'U', 200}, {'[', '$', 'T', '#', 'L', 0x7f, 0xff, 0xff, 0xff, 0xff, 0xff, 0xff, 0xff}}[r.n(9)+r.n(2)*r.n(2)*r.n(2)*r.n(2)]
 				doc = append(doc[:i], append(append([]byte{}, ins...), doc[i:]...)...)
 			}
 		}
